@@ -14,7 +14,8 @@ RULE = ("A case is (protocol version, up to 8 full requested states applied in s
         "follow-me, eco, purifier, aux mode, sleep, Fahrenheit; 'humidity' = 0..127; 'small_fields' = swing x freeze x "
         "power x beep; 'random' = seeded full states, also applied while a refresh is in flight, after a refresh of a "
         "reported state, and after a random capability report has been learned. Distinct = distinct requested state tuple; non-trivial = every "
-        "case (each compares a full state).")
+        "case (each compares a full state)."
+        " Later additions: units that acknowledge with their previous state, plain ints for enumerated settings, mode 'sparse' (1-3 settings changed since the last apply, optionally next to a property setter, after up to 67 min of idle time), reported states with unmodelled flag bits.")
 ASSUMPTIONS = [
     "vendor layout as transcribed in refmodel/acmodel.decode_control (Lua jsonToData lines 3286-3445); alternate "
     "set-point code = T-12 for 13..43 C as the property states; follow-me = body[8] bit 7",
